@@ -25,7 +25,6 @@ import (
 	"bytes"
 	"crypto/sha1"
 	"encoding/binary"
-	"errors"
 	"fmt"
 	"io"
 	"math/rand/v2"
@@ -572,7 +571,7 @@ func judge(c *vk.C, e *exch, segs []seg) {
 		sig := "spec-mismatch " + e.label() + " " + bclass
 		reported[sig] = true
 		c.Violation("spec-mismatch", sig, fmt.Sprintf("one write per step: %s", bdetail),
-			map[string]any{"exchange": e, "cuts": []int{}, "storrent_error": base.Err})
+			map[string]any{"cuts": []int{}, "storrent_error": base.Err, "steps": e.stepLens()})
 	}
 	for _, s := range segs {
 		g := runOne(e, s.Cuts)
@@ -609,7 +608,7 @@ func judge(c *vk.C, e *exch, segs []seg) {
 		c.Violation(kind, sig,
 			fmt.Sprintf("same byte streams, different outcome: one write per step -> %s; cut at %v (%s) -> %s [storrent error class %q]. Stream layout: steps %v, handshake ends at %d.",
 				bs, cutsDesc(s.Cuts), s.Family, detail, errClass(g.Err), e.stepLens(), e.hsEnd()),
-			map[string]any{"exchange": e, "cuts": cutsDesc(s.Cuts), "family": s.Family, "storrent_error": g.Err, "baseline_error": base.Err})
+			map[string]any{"cuts": cutsDesc(s.Cuts), "family": s.Family, "storrent_error": g.Err, "baseline_error": base.Err, "steps": e.stepLens()})
 	}
 }
 
@@ -1373,5 +1372,3 @@ func countBase(jobs []job) int {
 	}
 	return n
 }
-
-var _ = errors.New
